@@ -12,6 +12,15 @@ TRUST = ('Trusted base: rustc nightly THIR/MIR for this source (same cfgs as the
          'the evidence file.')
 
 CHECKS = {
+    'C13': {
+        'technique': 'exhaustive error-variant -> reply mapping by path-condition reachability, table agreement (verb literals / CommandId / Command / index / counter array / HELP), validator census per Command field, template decoding of every format string, idiom classification of the trailing-parameter split with a constructive counterexample',
+        'level': ('Decides the structural necessary conditions of the parsing/framing property: total pre-execution error mapping '
+                  '(421/461/472/501/696/417/ERROR), agreement of all command tables, 461 naming its own verb, validation before '
+                  'execution with the right validator per field, CR LF encoder constants and single socket writer, colon-introduced '
+                  'trailing free text in every relay/reply template, the serialiser\'s colon condition, and the delimiter idiom of the '
+                  'tokeniser (pinned tree: bare-colon split, known finding).'),
+        'note': TRUST + ' The tokeniser\'s agreement with the grammar over ALL strings (blank runs, tabs, multi-byte text) is a runtime-value property and is not decided.',
+    },
     'C05': {
         'technique': 'panic-obligation discharge over the whole non-start-up program: site census from the typed tree (cross-checked against the MIR panic-edge census), each site discharged by path-condition entailment, re-located parser/validator facts, invariants I1-I8 or a term-keyed justified table with structural rechecks; precondition lifting to callers with a kill rule; await census under lexical lock regions',
         'level': ('Decides that every unwrap/expect, index, str slice, integer operation, explicit panic and panicking library call '
